@@ -38,8 +38,14 @@ def run(chk, repo):
                         f"{name}: {la.codec()} in both records",
                         f"{name}: {la.codec()} +{la.width} in the signal record but {lb.codec()} +{lb.width} in the processed record",
                         key=f"sibling:{name}")
-    for key in sorted(used):
-        check_adapter(chk, "C03-T4", repo, L.ev, key)
+    def t4(chk, repo, L, used):
+        for key in sorted(used):
+            check_adapter(chk, "C03-T4", repo, L.ev, key)
+    _t4_pending = (t4, used)
+    from .adapter_eval import adapter_values
+    chk.rule("C03-T7", "every adapter used in these layouts decodes representative raw values as specified (evaluation of _decode)", 5)
+    chk.attempt(adapter_values, chk, repo, L, "C03-T7", ("signal", "processed", "image_descriptor"))
+    chk.attempt(_t4_pending[0], chk, repo, L, _t4_pending[1], covered_by="adapter_values")
     from ..shapes_rules import link_tables
     link_tables(chk, repo, L, "C03")
     from .common_rules import record_type_dispatch, to_dict_contract, variable_conversion
